@@ -75,18 +75,21 @@ theorem load_eq (f : Fmt) (long : Bool) (mem : List UInt8) (a : Nat) :
     simp [Fmt.width, Fmt.signed, regWidth, sext, toSigned] at hx ⊢ <;>
     (repeat' split) <;> omega
 
-/-- **both paths read the same value**: Python `get` on the EtherCAT frame vs the program's load on the Ethernet
-frame with that payload, for every format, frame and offset -/
-theorem paths_agree_get (f : Fmt) (long : Bool) (hdr data : List UInt8) (s : Nat)
-    (hh : hdr.length = ETHERNET_HEADER) :
-    (progLoad f long (hdr ++ data) (s + ETHERNET_HEADER) : Int) = pyGet f data s % 2 ^ regWidth f long := by
-  rw [load_eq]
-  congr 1
+/-- the payload behind the Ethernet header is the EtherCAT frame: the same bytes are decoded -/
+theorem pyGet_payload (f : Fmt) (hdr data : List UInt8) (s : Nat) (hh : hdr.length = ETHERNET_HEADER) :
+    pyGet f (hdr ++ data) (s + ETHERNET_HEADER) = pyGet f data s := by
   unfold pyGet
   have : slice (hdr ++ data) (s + ETHERNET_HEADER) (s + ETHERNET_HEADER + f.width) = slice data s (s + f.width) := by
     rw [← hh, Nat.add_comm s, Nat.add_assoc]
     exact slice_append_left ..
   rw [this]
+
+/-- **both paths read the same value**: Python `get` on the EtherCAT frame vs the program's load on the Ethernet
+frame with that payload, for every format, frame and offset -/
+theorem paths_agree_get (f : Fmt) (long : Bool) (hdr data : List UInt8) (s : Nat)
+    (hh : hdr.length = ETHERNET_HEADER) :
+    (progLoad f long (hdr ++ data) (s + ETHERNET_HEADER) : Int) = pyGet f data s % 2 ^ regWidth f long := by
+  rw [load_eq, pyGet_payload f hdr data s hh]
 
 /-- the value Python reads lies in the format's range -/
 theorem pyGet_fits (f : Fmt) (data : List UInt8) (s : Nat) : fits f (pyGet f data s) = true := by
@@ -95,14 +98,13 @@ theorem pyGet_fits (f : Fmt) (data : List UInt8) (s : Nat) : fits f (pyGet f dat
   generalize decLE (slice data s (s + f.width)) = x at hx
   cases f <;> simp [Fmt.width, Fmt.signed, toSigned, fitsS, fitsU] at hx ⊢ <;> (repeat' split) <;> omega
 
-/-- a byte-format source used as a run-time Boolean (`value != 0`) tests what Python's truthiness tests -/
-theorem paths_agree_test (f : Fmt) (hdr data : List UInt8) (s : Nat) (hh : hdr.length = ETHERNET_HEADER) :
-    progTest f (hdr ++ data) (s + ETHERNET_HEADER) = (pyGet f data s != 0) := by
-  have h := paths_agree_get f false hdr data s hh
-  have hf := pyGet_fits f data s
+/-- in one memory: the run-time test `value != 0` on the loaded register is Python's truthiness of the value -/
+theorem test_eq (f : Fmt) (mem : List UInt8) (a : Nat) : progTest f mem a = (pyGet f mem a != 0) := by
+  have h := load_eq f false mem a
+  have hf := pyGet_fits f mem a
   unfold progTest
-  generalize progLoad f false (hdr ++ data) (s + ETHERNET_HEADER) = r at h
-  generalize pyGet f data s = v at h hf
+  generalize progLoad f false mem a = r at h
+  generalize pyGet f mem a = v at h hf
   have : (r = 0) ↔ (v = 0) := by
     cases f <;>
       simp only [fits, Fmt.signed, fitsS, fitsU, Bool.and_eq_true, decide_eq_true_eq, ↓reduceIte, Bool.false_eq_true] at hf <;>
@@ -114,6 +116,11 @@ theorem paths_agree_test (f : Fmt) (hdr data : List UInt8) (s : Nat) (hh : hdr.l
     have h1 : (r != 0) = true := by simpa using hr
     have h2 : (v != 0) = true := by simpa using hv
     rw [h1, h2]
+
+/-- a byte-format source used as a run-time Boolean (`value != 0`) tests what Python's truthiness tests -/
+theorem paths_agree_test (f : Fmt) (hdr data : List UInt8) (s : Nat) (hh : hdr.length = ETHERNET_HEADER) :
+    progTest f (hdr ++ data) (s + ETHERNET_HEADER) = (pyGet f data s != 0) := by
+  rw [test_eq, pyGet_payload f hdr data s hh]
 
 /-! ### byte formats: set -/
 
@@ -359,6 +366,322 @@ theorem bit_roundtrip (data : List UInt8) (s n : Nat) (b : Bool) (hs : s < data.
   · rw [e1]; unfold progTestBit; rw [ldx_one _ _ hs', h6]; exact hpy
   · rw [e2]; unfold progTestBit; rw [ldx_one _ _ hs', h6]; exact hpy
 
+/-! ### whole statements and whole device programs (the functions the driver runs) -/
+/-- `r` and `v` agree modulo a store of `m` bytes -/
+def Congr (m r : Nat) (v : Int) : Prop := (r : Int) % 2 ^ (8 * m) = v % 2 ^ (8 * m)
+
+theorem pow2_dvd (a b : Nat) (h : a ≤ b) : (2 : Int) ^ a ∣ 2 ^ b :=
+  ⟨2 ^ (b - a), by rw [← Int.pow_add]; congr 1; omega⟩
+
+theorem congr_of_mod (m W r : Nat) (v : Int) (h : (r : Int) = v % 2 ^ W) (hm : 8 * m ≤ W) : Congr m r v := by
+  unfold Congr
+  rw [h]
+  exact Int.emod_emod_of_dvd _ (pow2_dvd _ _ hm)
+
+theorem regWidth_ge (f : Fmt) (long : Bool) (m : Nat) (hm : m ≤ 4 ∨ (long = true ∧ m ≤ 8)) : 8 * m ≤ regWidth f long := by
+  unfold regWidth
+  rcases hm with hm | ⟨hl, hm⟩
+  · split <;> omega
+  · simp [hl]; omega
+
+/-- what is in a DeviceVar's memory decodes to the value -/
+theorem pyGet_enc (f : Fmt) (v : Int) (hv : fits f v = true) : pyGet f (encLE f.width (ofSigned f.width v)) 0 = v := by
+  apply py_roundtrip f (encLE f.width (ofSigned f.width v)) _ 0 v (by simp)
+  simp [pySet, hv, setRange]
+
+theorem stx_full (mem : List UInt8) (n r : Nat) (h : mem.length = n) : stx mem 0 n r = encLE n r := by
+  simp [stx, setRange, h]
+
+
+
+/-- the fast group's DeviceVar memory holds, in its own format, the value the slow group keeps as an attribute -/
+def DvRel (v : Int) (m : Fmt × List UInt8) : Prop :=
+  fits m.1 v = true ∧ m.2 = encLE m.1.width (ofSigned m.1.width v)
+
+/-- the two paths' states correspond: the program's frame is the Ethernet header followed by Python's frame -/
+structure Rel (hdr : List UInt8) (py : PyState) (pr : ProgState) : Prop where
+  frame : pr.frame = hdr ++ py.data
+  len : py.dvs.length = pr.dvs.length
+  dvs : ∀ (j : Nat) (v : Int) (m : Fmt × List UInt8), py.dvs[j]? = some v → pr.dvs[j]? = some m → DvRel v m
+
+/-- every linked variable lies inside the frame (Python would raise otherwise); bit numbers are 0..7 -/
+def InBounds (vars : List Linked) (len : Nat) : Prop :=
+  ∀ l ∈ vars, ∀ s, start l.assign l.var = some s →
+    match l.var.size with
+    | .fmt f => s + f.width ≤ len
+    | .bit n => s < len ∧ n < 8
+
+theorem read_agree (hdr : List UInt8) (hh : hdr.length = ETHERNET_HEADER) (vars : List Linked) (py : PyState)
+    (pr : ProgState) (hR : Rel hdr py pr) (hB : InBounds vars py.data.length)
+    (i : Nat) (v : Int) (h : pyRead vars py i = some v) (long : Bool) :
+    ∃ r, progReg vars pr long (.var i) = some r ∧ (∀ m, (m ≤ 4 ∨ (long = true ∧ m ≤ 8)) → Congr m r v) ∧
+      progCond vars pr (.var i) = some (v != 0) := by
+  unfold pyRead at h
+  cases hl : vars[i]? with
+  | none => simp [hl] at h
+  | some l =>
+    cases hs : start l.assign l.var with
+    | none => simp [hl, hs] at h
+    | some s =>
+      have hmem : l ∈ vars := List.mem_of_getElem? hl
+      have hb := hB l hmem s hs
+      have ha : progAddr l.assign l.var = some (s + ETHERNET_HEADER) := by simp [progAddr, hs]
+      simp only [hl, hs, Option.bind_eq_bind, Option.bind_some, pyReadAt] at h
+      cases hsz : l.var.size with
+      | fmt f =>
+        simp only [hsz, pure, Option.some.injEq] at h
+        subst h
+        refine ⟨progLoad f long pr.frame (s + ETHERNET_HEADER), by simp [progReg, hl, ha, hsz], ?_, ?_⟩
+        · intro m hm
+          rw [hR.frame]
+          exact congr_of_mod m _ _ _ (paths_agree_get f long hdr py.data s hh) (regWidth_ge f long m hm)
+        · simp only [progCond, hl, ha, hsz, Option.bind_eq_bind, Option.bind_some, pure, Option.some.injEq]
+          rw [hR.frame]
+          exact paths_agree_test f hdr py.data s hh
+      | bit n =>
+        simp only [hsz] at hb h
+        simp only [pure, Option.some.injEq] at h
+        have ⟨g1, g2, _⟩ := paths_agree_get_bit hdr py.data s n hh hb.1 hb.2
+        refine ⟨progGetBit pr.frame (s + ETHERNET_HEADER) n, by simp [progReg, hl, ha, hsz], ?_, ?_⟩
+        · intro m _
+          rw [hR.frame, g1, ← h]
+          unfold Congr
+          split <;> rfl
+        · simp only [progCond, hl, ha, hsz, Option.bind_eq_bind, Option.bind_some, pure, Option.some.injEq]
+          rw [hR.frame, g2, ← h]
+          cases pyGetBit py.data s n <;> rfl
+
+
+theorem dv_agree (hdr : List UInt8) (vars : List Linked) (py : PyState) (pr : ProgState) (hR : Rel hdr py pr)
+    (j : Nat) (v : Int) (h : py.dvs[j]? = some v) (long : Bool) :
+    ∃ r, progReg vars pr long (.dv j) = some r ∧ (∀ m, (m ≤ 4 ∨ (long = true ∧ m ≤ 8)) → Congr m r v) ∧
+      progCond vars pr (.dv j) = some (v != 0) := by
+  have hj : j < pr.dvs.length := by
+    rw [← hR.len]; exact (List.getElem?_eq_some_iff.mp h).1
+  obtain ⟨⟨f, mem⟩, hm⟩ : ∃ m, pr.dvs[j]? = some m := ⟨pr.dvs[j], List.getElem?_eq_getElem hj⟩
+  have ⟨hfit, hmem⟩ := hR.dvs j v (f, mem) h hm
+  simp only at hfit hmem
+  have hget : pyGet f mem 0 = v := by rw [hmem]; exact pyGet_enc f v hfit
+  refine ⟨progLoad f long mem 0, by simp [progReg, hm], ?_, ?_⟩
+  · intro m hm'
+    have := load_eq f long mem 0
+    rw [hget] at this
+    exact congr_of_mod m _ _ _ this (regWidth_ge f long m hm')
+  · simp only [progCond, hm, Option.bind_eq_bind, Option.bind_some, pure, Option.some.injEq]
+    rw [test_eq, hget]
+
+theorem value_agree (hdr : List UInt8) (hh : hdr.length = ETHERNET_HEADER) (vars : List Linked) (py : PyState)
+    (pr : ProgState) (hR : Rel hdr py pr) (hB : InBounds vars py.data.length)
+    (src : Src) (v : Int) (h : pyValue vars py src = some v) (long : Bool) :
+    ∃ r, progReg vars pr long src = some r ∧ (∀ m, (m ≤ 4 ∨ (long = true ∧ m ≤ 8)) → Congr m r v) ∧
+      progCond vars pr src = some (v != 0) := by
+  cases src with
+  | var i => exact read_agree hdr hh vars py pr hR hB i v h long
+  | dv j => exact dv_agree hdr vars py pr hR j v h long
+  | const k =>
+    simp only [pyValue, Option.some.injEq] at h
+    subst h
+    refine ⟨constReg k, rfl, ?_, rfl⟩
+    intro m hm
+    exact constReg_congr k m (by omega)
+
+
+
+theorem width_long (f : Fmt) : f.width ≤ 4 ∨ ((f.width == 8) = true ∧ f.width ≤ 8) := by
+  cases f <;> simp [Fmt.width]
+
+theorem store_agree (hdr : List UInt8) (hh : hdr.length = ETHERNET_HEADER) (vars : List Linked) (py py' : PyState)
+    (pr : ProgState) (hR : Rel hdr py pr) (hB : InBounds vars py.data.length)
+    (d : Nat) (src : Src) (v : Int) (hv : pyValue vars py src = some v) (hs : pyStore vars py d v = some py') :
+    ∃ pr', progStore vars pr d src = some pr' ∧ Rel hdr py' pr' ∧ py'.data.length = py.data.length ∧
+      pr'.dvs = pr.dvs := by
+  unfold pyStore at hs
+  cases hl : vars[d]? with
+  | none => simp [hl] at hs
+  | some l =>
+    cases hst : start l.assign l.var with
+    | none => simp [hl, hst] at hs
+    | some s =>
+      have hb := hB l (List.mem_of_getElem? hl) s hst
+      have ha : progAddr l.assign l.var = some (s + ETHERNET_HEADER) := by simp [progAddr, hst]
+      simp only [hl, hst, Option.bind_eq_bind, Option.bind_some, pyStoreAt] at hs
+      cases hsz : l.var.size with
+      | fmt f =>
+        simp only [hsz] at hb hs
+        cases hp : pySet f py.data s v with
+        | none => simp [hp] at hs
+        | some data' =>
+          simp only [hp, Option.map_some, Option.some.injEq] at hs
+          subst hs
+          have hfit : fits f v = true := by
+            unfold pySet at hp; split at hp
+            · assumption
+            · cases hp
+          obtain ⟨r, hr, hc, _⟩ := value_agree hdr hh vars py pr hR hB src v hv (f.width == 8)
+          obtain ⟨d', hd', hst'⟩ := paths_agree_set f hdr py.data s v r hh hfit (hc f.width (width_long f))
+          rw [hp] at hd'
+          injection hd' with hd'
+          subst hd'
+          refine ⟨{ pr with frame := stx pr.frame (s + ETHERNET_HEADER) f.width r }, ?_, ⟨?_, hR.len, hR.dvs⟩, ?_, rfl⟩
+          · simp [progStore, hl, ha, hsz, hr]
+          · simp only; rw [hR.frame]; exact hst'
+          · exact (py_own_bytes f py.data _ s v hb hp).1
+      | bit n =>
+        simp only [hsz] at hb hs
+        simp only [Option.some.injEq] at hs
+        subst hs
+        have ⟨g1, g2⟩ := paths_agree_set_bit hdr py.data s n (v != 0) hh hb.1 hb.2
+        have hlen : (pySetBit py.data s n (v != 0)).length = py.data.length := by simp [pySetBit]
+        cases src with
+        | const k =>
+          simp only [pyValue, Option.some.injEq] at hv
+          subst hv
+          refine ⟨{ pr with frame := progSetBitConst pr.frame (s + ETHERNET_HEADER) n (k != 0) }, ?_, ⟨?_, hR.len, hR.dvs⟩, hlen, rfl⟩
+          · simp [progStore, hl, ha, hsz]
+          · simp only; rw [hR.frame]; exact g1
+        | var i =>
+          obtain ⟨_, _, _, hc⟩ := value_agree hdr hh vars py pr hR hB (.var i) v hv false
+          refine ⟨{ pr with frame := progSetBitRt pr.frame (s + ETHERNET_HEADER) n (v != 0) }, ?_, ⟨?_, hR.len, hR.dvs⟩, hlen, rfl⟩
+          · simp [progStore, hl, ha, hsz, hc]
+          · simp only; rw [hR.frame]; exact g2
+        | dv j =>
+          obtain ⟨_, _, _, hc⟩ := value_agree hdr hh vars py pr hR hB (.dv j) v hv false
+          refine ⟨{ pr with frame := progSetBitRt pr.frame (s + ETHERNET_HEADER) n (v != 0) }, ?_, ⟨?_, hR.len, hR.dvs⟩, hlen, rfl⟩
+          · simp [progStore, hl, ha, hsz, hc]
+          · simp only; rw [hR.frame]; exact g2
+
+
+
+/-- the property's domain for one statement: a value stored into a DeviceVar fits that DeviceVar's format
+(a slow group keeps any Python integer, the fast group keeps the low bytes) -/
+def GetFits (fmts : List Fmt) (vars : List Linked) (py : PyState) : Op → Prop
+  | .get j i => ∃ f, fmts[j]? = some f ∧ ∀ v, pyRead vars py i = some v → fits f v = true
+  | .set _ _ => True
+
+def RunFits (fmts : List Fmt) (vars : List Linked) : PyState → List Op → Prop
+  | _, [] => True
+  | py, o :: os => GetFits fmts vars py o ∧ ∀ py', pyStep vars py o = some py' → RunFits fmts vars py' os
+
+/-- **one statement** (`self.x = …` in `update()` resp. `program()`): if the Python path executes it (values
+representable), the program path executes it too and leaves the same frame and the same DeviceVar values -/
+theorem step_agree (hdr : List UInt8) (hh : hdr.length = ETHERNET_HEADER) (vars : List Linked) (py py' : PyState)
+    (pr : ProgState) (hR : Rel hdr py pr) (hB : InBounds vars py.data.length) (op : Op)
+    (hF : GetFits (pr.dvs.map (·.1)) vars py op) (hs : pyStep vars py op = some py') :
+    ∃ pr', progStep vars pr op = some pr' ∧ Rel hdr py' pr' ∧ py'.data.length = py.data.length ∧
+      pr'.dvs.map (·.1) = pr.dvs.map (·.1) := by
+  cases op with
+  | set d src =>
+    simp only [pyStep] at hs
+    cases hv : pyValue vars py src with
+    | none => simp [hv] at hs
+    | some v =>
+      simp only [hv, Option.bind_some] at hs
+      obtain ⟨pr', h1, h2, h3, h4⟩ := store_agree hdr hh vars py py' pr hR hB d src v hv hs
+      exact ⟨pr', h1, h2, h3, by rw [h4]⟩
+  | get j i =>
+    simp only [pyStep] at hs
+    cases hv : pyRead vars py i with
+    | none => simp [hv] at hs
+    | some v =>
+      simp only [hv, Option.map_some, Option.some.injEq] at hs
+      subst hs
+      obtain ⟨f, hf, hfit⟩ := hF
+      have hfit := hfit v hv
+      rw [List.getElem?_map] at hf
+      cases hm : pr.dvs[j]? with
+      | none => simp [hm] at hf
+      | some fm =>
+        obtain ⟨f', mem⟩ := fm
+        simp only [hm, Option.map_some, Option.some.injEq] at hf
+        subst hf
+        have hj : j < pr.dvs.length := (List.getElem?_eq_some_iff.mp hm).1
+        have hjp : j < py.dvs.length := by rw [hR.len]; exact hj
+        have hold := hR.dvs j py.dvs[j] (f', mem) (List.getElem?_eq_getElem hjp) hm
+        have hlen : mem.length = f'.width := by
+          have := hold.2
+          simp only at this
+          rw [this]; simp
+        obtain ⟨r, hr, hc, _⟩ := read_agree hdr hh vars py pr hR hB i v hv (f'.width == 8)
+        have hnew : stx mem 0 f'.width r = encLE f'.width (ofSigned f'.width v) := by
+          rw [stx_full mem _ r hlen]
+          exact encLE_congr_int _ _ _ (hc f'.width (width_long f'))
+        refine ⟨{ pr with dvs := pr.dvs.set j (f', stx mem 0 f'.width r) }, ?_, ⟨hR.frame, ?_, ?_⟩, rfl, ?_⟩
+        · simp [progStep, hm, hr]
+        · simp [hR.len]
+        · intro j' v' m' h1 h2
+          simp only [List.getElem?_set] at h1 h2
+          by_cases hjj : j = j'
+          · subst hjj
+            simp only [↓reduceIte, hjp, hj, Option.some.injEq] at h1 h2
+            subst h1 h2
+            exact ⟨hfit, hnew⟩
+          · simp only [hjj, ↓reduceIte] at h1 h2
+            exact hR.dvs j' v' m' h1 h2
+        · simp only
+          apply List.ext_getElem?
+          intro k
+          simp only [List.getElem?_map, List.getElem?_set]
+          by_cases hjk : j = k
+          · subst hjk
+            have he : pr.dvs[j] = (f', mem) := by
+              have := List.getElem?_eq_getElem hj
+              rw [hm] at this
+              injection this with this
+              exact this.symm
+            simp [hj, he]
+          · simp [hjk]
+
+/-- **a device's whole `update()` / `program()`**: for every list of statements, every frame and Ethernet header,
+if the run stays representable the fast program leaves exactly the frame the Python path leaves (behind the
+untouched Ethernet header) and its DeviceVars decode to the values Python holds -/
+theorem run_agree (hdr : List UInt8) (hh : hdr.length = ETHERNET_HEADER) (vars : List Linked) (ops : List Op) :
+    ∀ (py py' : PyState) (pr : ProgState), Rel hdr py pr → InBounds vars py.data.length →
+      RunFits (pr.dvs.map (·.1)) vars py ops → pyRun vars py ops = some py' →
+      ∃ pr', progRun vars pr ops = some pr' ∧ pr'.frame = hdr ++ py'.data ∧
+        pr'.dvs.map (fun m => pyGet m.1 m.2 0) = py'.dvs := by
+  induction ops with
+  | nil =>
+    intro py py' pr hR _ _ h
+    simp only [pyRun, Option.some.injEq] at h
+    subst h
+    refine ⟨pr, rfl, hR.frame, ?_⟩
+    apply List.ext_getElem?
+    intro j
+    simp only [List.getElem?_map]
+    cases hm : pr.dvs[j]? with
+    | none =>
+      have : pr.dvs.length ≤ j := List.getElem?_eq_none_iff.mp hm
+      simp [List.getElem?_eq_none_iff.mpr (hR.len ▸ this)]
+    | some m =>
+      have hj : j < py.dvs.length := by rw [hR.len]; exact (List.getElem?_eq_some_iff.mp hm).1
+      have ⟨hfit, hmem⟩ := hR.dvs j py.dvs[j] m (List.getElem?_eq_getElem hj) hm
+      simp only [Option.map_some, List.getElem?_eq_getElem hj, Option.some.injEq]
+      rw [hmem]; exact pyGet_enc m.1 _ hfit
+  | cons o os ih =>
+    intro py py' pr hR hB hF h
+    simp only [pyRun] at h
+    cases hs : pyStep vars py o with
+    | none => simp [hs] at h
+    | some py1 =>
+      simp only [hs, Option.bind_some] at h
+      obtain ⟨pr1, h1, hR1, hl1, hf1⟩ := step_agree hdr hh vars py py1 pr hR hB o hF.1 hs
+      have := ih py1 py' pr1 hR1 (hl1 ▸ hB) (hf1 ▸ hF.2 py1 hs) h
+      obtain ⟨pr', h2, h3⟩ := this
+      exact ⟨pr', by simp [progRun, h1, h2], h3⟩
+
+/-- the states the driver (and the harness) start from are related -/
+theorem rel_init (hdr data : List UInt8) (dvs : List (Fmt × Int)) (h : ∀ p ∈ dvs, fits p.1 p.2 = true) :
+    Rel hdr ⟨data, dvs.map (·.2)⟩ ⟨hdr ++ data, dvs.map fun p => (p.1, encLE p.1.width (ofSigned p.1.width p.2))⟩ := by
+  refine ⟨rfl, by simp, ?_⟩
+  intro j v m h1 h2
+  simp only [List.getElem?_map] at h1 h2
+  cases hp : dvs[j]? with
+  | none => simp [hp] at h1
+  | some p =>
+    simp only [hp, Option.map_some, Option.some.injEq] at h1 h2
+    subst h1 h2
+    exact ⟨h p (List.mem_of_getElem? hp), rfl⟩
+
 /-! ### offsets -/
 
 /-- the program's address is the Python start moved by the Ethernet header: both name the same payload byte -/
@@ -415,5 +738,36 @@ example : pySetBit [0, 0xff, 2] 1 0 false = [0, 0xfe, 2] ∧ progSetBitConst [0,
 example : resolve [⟨0x6000, 1, .inp, 0, .bit 3⟩, ⟨0x6010, 1, .inp, 2, .fmt .H⟩] ⟨4, 6, 0x10⟩ (.process 0x6000 1 (some (.fmt .h)))
     = some ⟨.inp, 2, .fmt .h⟩ := by decide
 example : start ⟨some 26, some 41⟩ ⟨.out, 1 + 6, .bit 2⟩ = some 48 ∧ progAddr ⟨some 26, some 41⟩ ⟨.out, 1 + 6, .bit 2⟩ = some 62 := by decide
+
+-- a device with an `h` input at 26+1, an `i` output at 41+0, two bit outputs sharing byte 41+4 and a DeviceVar `i`:
+-- `out = inp; bit5 = bit0; bit0 = 1; dv = inp` — hypotheses of `run_agree` hold and both runs give the same frame
+def exVars : List Linked :=
+  [⟨⟨.inp, 1, .fmt .h⟩, ⟨some 2, some 5⟩, 0, 0⟩, ⟨⟨.out, 0, .fmt .i⟩, ⟨some 2, some 5⟩, 1, 0⟩,
+   ⟨⟨.out, 4, .bit 5⟩, ⟨some 2, some 5⟩, 2, 0⟩, ⟨⟨.out, 4, .bit 0⟩, ⟨some 2, some 5⟩, 3, 0⟩]
+def exOps : List Op := [.set 1 (.var 0), .set 2 (.var 3), .set 3 (.const 1), .get 0 0]
+def exData : List UInt8 := [9, 9, 7, 0xfe, 0xff, 1, 2, 3, 4, 0x80]
+def exHdr : List UInt8 := List.replicate 14 0xee
+
+example : (pyRun exVars ⟨exData, [5]⟩ exOps).map (fun s => (s.data, s.dvs)) =
+    some ([9, 9, 7, 0xfe, 0xff, 0xfe, 0xff, 0xff, 0xff, 0x81], [-2]) := by decide
+example : (progRun exVars ⟨exHdr ++ exData, [(.i, [5, 0, 0, 0])]⟩ exOps).map (·.frame) =
+    some (exHdr ++ [9, 9, 7, 0xfe, 0xff, 0xfe, 0xff, 0xff, 0xff, 0x81]) := by decide
+example : (progRun exVars ⟨exHdr ++ exData, [(.i, [5, 0, 0, 0])]⟩ exOps).map (·.dvs) = some [(.i, [0xfe, 0xff, 0xff, 0xff])] := by decide
+example : InBounds exVars exData.length := by
+  intro l hl s hs
+  simp only [exVars, List.mem_cons, List.not_mem_nil, or_false] at hl
+  rcases hl with rfl | rfl | rfl | rfl <;> simp [start, Assign.base] at hs <;> subst hs <;> simp [exData, Fmt.width]
+example : RunFits [.i] exVars ⟨exData, [5]⟩ exOps := by
+  refine ⟨trivial, fun _ _ => ⟨trivial, fun _ _ => ⟨trivial, fun p3 h3 => ⟨⟨.i, rfl, ?_⟩, fun _ _ => trivial⟩⟩⟩⟩
+  intro v hv
+  have := pyGet_fits .h p3.data 3
+  simp only [pyRead, pyReadAt, exVars, start, Assign.base] at hv
+  simp at hv
+  subst hv
+  revert this
+  generalize pyGet .h p3.data 3 = x
+  simp only [fits, Fmt.signed, fitsS, Bool.and_eq_true, decide_eq_true_eq, ↓reduceIte]
+  simp [Fmt.width]
+  omega
 
 end Ebv.C19
